@@ -21,6 +21,27 @@ FAR_PAST = 1_000_000_000          # 2001
 FAR_FUTURE = 4_000_000_000        # 2096
 
 
+# Stand-in for the compiled introspection binary: run through the real --program ->
+# GDumpParser._execute_binary_get_tree subprocess path; answers the get-type / error-quark
+# requests of functions.txt, in the order they were asked, from a table written with the job.
+DUMPER = '''#!%s
+import json, os, sys
+arg = [a for a in sys.argv[1:] if a.startswith('--introspect-dump=')][0]
+in_path, out_path = arg.split('=', 1)[1].split(',')
+table = json.load(open(os.path.join(os.path.dirname(os.path.abspath(__file__)), 'dump-table.json')))
+out = ['<?xml version="1.0"?>', '<dump>']
+for line in open(in_path):
+    kind, _, fn = line.strip().partition(':')
+    if fn in table:
+        out.append(table[fn])
+    else:
+        sys.stderr.write('dumper stub: no entry for %%s\\n' %% fn)
+        sys.exit(3)
+out.append('</dump>')
+open(out_path, 'w').write('\\n'.join(out) + '\\n')
+'''
+
+
 class ServerError(Exception):
     pass
 
@@ -107,6 +128,19 @@ def write_job_dir(job, jobdir):
         with open(path, 'w') as fh:
             fh.write('#!python\n')
         os.utime(path, (FAR_PAST + i * 1000, FAR_PAST + i * 1000))
+    if job.get('program'):
+        table = dict(job.get('dump', {}))
+        table.update(job.get('error_quarks', {}))
+        with open(os.path.join(jobdir, 'bin', 'dump-table.json'), 'w') as fh:
+            json.dump(table, fh)
+        dumper = os.path.join(jobdir, 'bin', 'dumper')
+        with open(dumper, 'w') as fh:
+            fh.write(DUMPER % sys.executable)
+        os.chmod(dumper, 0o755)
+        for n in ('GLib-2.0.gir', 'GObject-2.0.gir'):
+            dst = os.path.join(jobdir, 'deps', n)
+            shutil.copyfile(os.path.join(HERE, 'fixtures', n), dst)
+            os.utime(dst, (FAR_PAST, FAR_PAST))
     j = dict(job)
     j['dir'] = jobdir
     j['deps'] = []          # children only need the main namespace; dependency GIRs are files
